@@ -174,8 +174,9 @@ class Hamiltonian(SelfAdjointOperator, BasisManaged, EnergyUnitsManaged):
         self.data = numpy.dot(self.SS,numpy.dot(self.data,self.SS.T))
         if self._has_remainder_coupling:
             self.JR = numpy.dot(self.SS,numpy.dot(self.JR,self.SS.T))
-        if with_remainder and self._has_remainder_coupling:                
-            self.data += self.JR
+        if with_remainder and self._has_remainder_coupling:
+            # the remainder is stored in internal units, as self._data
+            self._data += self.JR
 
             
     def remove_cutoff_coupling(self, coupling_cutoff):
